@@ -80,6 +80,21 @@ impl InlineCache {
             return;
         }
 
+        // The slot was computed by a lookup that may have run user code afterwards (a getter or
+        // setter that deletes or redefines the property): only remember it if it still says where
+        // the property lives now.
+        let key = self.name.clone().into();
+        let current = if slot.attributes.contains(SlotAttributes::PROTOTYPE) {
+            shape
+                .prototype()
+                .and_then(|prototype| prototype.borrow().shape().lookup(&key))
+        } else {
+            shape.lookup(&key)
+        };
+        if current.is_none_or(|current| current.index != slot.index) {
+            return;
+        }
+
         // Remember the layout of the prototype that the slot index refers to.
         let prototype_shape = if slot.attributes.contains(SlotAttributes::PROTOTYPE) {
             shape
